@@ -1,1 +1,692 @@
--- property theorems for C16 (stub)
+import RP.Model.Parse
+import RP.Lemmas.Codec
+import RP.Lemmas.Parse
+import RP.Lemmas.Abs
+/-! # C16 — Text parsers never abort and accept only valid values
+
+Theorems about the parser models of `RP/Model/Parse.lean` (the definitions the driver `drv_c16`
+runs against the real `TryFrom<&str>` impls).
+
+* **never aborts** — for *every* instantiation `U` of the Unicode tables (no assumption at all) and
+  *every* string, each of the eight parsers returns `ok` or `err`, never `panic`;
+* **accepted observation is well-formed** — 2 pocket cards, 0/3/4/5 board cards, no card in both,
+  all cards below 52;
+* **print → parse** — under `U.AsciiOK` (the tables restricted to ASCII are the ASCII ones) the
+  printed form of every value parses back to it. -/
+namespace RP.C16
+open RP.Codec RP.Gen RP.Parse
+
+/-! ## never aborts (all strings, all Unicode tables) -/
+theorem parseCard_no_panic (U : Unicode) (s : List Char) : parseCard U s ≠ .panic := by
+  unfold parseCard
+  split
+  · split
+    · simp
+    · split <;> simp
+  · simp
+
+theorem collectCards_no_panic (U : Unicode) : ∀ l : List (List Char), collectCards U l ≠ .panic
+  | [] => by simp [collectCards]
+  | ch :: rest => by
+    have ih := collectCards_no_panic U rest
+    have hc := parseCard_no_panic U ch
+    unfold collectCards
+    cases h1 : parseCard U ch with
+    | panic => exact absurd h1 hc
+    | err => simp
+    | ok c =>
+      cases h2 : collectCards U rest with
+      | panic => exact absurd h2 ih
+      | err => simp
+      | ok cs => simp
+
+theorem tokensCards_no_panic (U : Unicode) : ∀ l : List (List Char), tokensCards U l ≠ .panic ∧ tokensCards U l ≠ .err
+  | [] => by simp [tokensCards]
+  | t :: ts => by
+    have ih := tokensCards_no_panic U ts
+    have hc := collectCards_no_panic U (chunks2 t)
+    unfold tokensCards
+    cases h1 : collectCards U (chunks2 t) with
+    | panic => exact absurd h1 hc
+    | err => exact ih
+    | ok cs =>
+      cases h2 : tokensCards U ts with
+      | panic => exact absurd h2 ih.1
+      | err => exact absurd h2 ih.2
+      | ok r => simp
+
+/-- `Hand::try_from` never aborts — and never even fails: unparsable tokens are dropped -/
+theorem parseHand_total (U : Unicode) (s : List Char) : ∃ h, parseHand U s = .ok h := by
+  have := tokensCards_no_panic U (splitWs U s)
+  unfold parseHand
+  cases h : tokensCards U (splitWs U s) with
+  | panic => exact absurd h this.1
+  | err => exact absurd h this.2
+  | ok cs => exact ⟨_, rfl⟩
+theorem C16_hand_no_panic (U : Unicode) (s : List Char) : parseHand U s ≠ .panic := by
+  obtain ⟨h, e⟩ := parseHand_total U s; rw [e]; simp
+theorem C16_card_no_panic (U : Unicode) (s : List Char) : parseCard U s ≠ .panic := parseCard_no_panic U s
+theorem C16_hole_no_panic (U : Unicode) (s : List Char) : parseHole U s ≠ .panic := by
+  obtain ⟨h, e⟩ := parseHand_total U s
+  unfold parseHole; rw [e]; simp only; split <;> simp
+
+theorem obsSizes_ok (p b : Nat) (h : (handSize p, handSize b) ∈ C16.obsSizes) :
+    handSize p = 2 ∧ (handSize b = 0 ∨ handSize b = 3 ∨ handSize b = 4 ∨ handSize b = 5) := by
+  simp only [C16.obsSizes, List.mem_cons, Prod.mk.injEq, List.mem_nil_iff, or_false] at h
+  omega
+
+theorem C16_obs_no_panic (U : Unicode) (s : List Char) : parseObs U s ≠ .panic := by
+  unfold parseObs
+  simp only
+  obtain ⟨p, e1⟩ := parseHand_total U ((splitOnce C16.obsSeparator (trim U s)).getD (trim U s, [])).1
+  obtain ⟨b, e2⟩ := parseHand_total U ((splitOnce C16.obsSeparator (trim U s)).getD (trim U s, [])).2
+  rw [e1, e2]
+  simp only
+  split
+  · simp
+  · split
+    · rename_i hsz
+      have := obsSizes_ok p b hsz
+      have hm : obsMk p b = some ⟨p, b⟩ := by
+        unfold obsMk
+        have : handSize p = C15.obsPocketSize ∧ handSize b ≤ C15.obsPublicMax := by
+          simp only [C15.obsPocketSize, C15.obsPublicMax]; omega
+        rw [if_pos this]
+      rw [hm]; simp
+    · simp
+
+theorem C16_street_no_panic (U : Unicode) (s : List Char) : parseStreet U s ≠ .panic := by
+  unfold parseStreet
+  split
+  · split <;> simp
+  · simp
+
+theorem C16_abs_no_panic (U : Unicode) (s : List Char) : parseAbs U s ≠ .panic := by
+  unfold parseAbs
+  simp only
+  split
+  · rename_i a b _ _
+    have := C16_street_no_panic U a
+    cases h : parseStreet U a with
+    | panic => exact absurd h this
+    | err => simp
+    | ok st => simp only; split <;> simp
+  · simp
+
+theorem C16_action_no_panic (U : Unicode) (s : List Char) : parseAction U s ≠ .panic := by
+  unfold parseAction
+  simp only
+  split
+  · simp
+  · rename_i first rest hparts
+    have amount : ∀ mk : Int → Action,
+        (match rest.head? with
+          | some n => (match parseInt 10 CHIPS_BITS true n with
+            | some x => Outcome.ok (mk x)
+            | none => Outcome.err)
+          | none => Outcome.err) ≠ .panic := by
+      intro mk; split
+      · split <;> simp
+      · simp
+    split; · simp
+    split; · simp
+    split; · exact amount _
+    split; · exact amount _
+    split; · exact amount _
+    split; · exact amount _
+    split
+    · have hv : vecSliceFrom (first :: rest) 1 = some rest := by simp [vecSliceFrom]
+      rw [hparts, hv]; simp only
+      obtain ⟨h, e⟩ := parseHand_total U (joinSp rest)
+      rw [e]; simp
+    · simp
+
+theorem byteSlice_after_ascii (c : Char) (cs : List Char) (hc : c.toNat < 128) : byteSliceFrom (c :: cs) 1 = some cs := by
+  have : utf8Len c = 1 := by unfold utf8Len; simp [hc]
+  simp [byteSliceFrom, this]
+
+theorem C16_turn_no_panic (s : List Char) : parseTurn s ≠ .panic := by
+  unfold parseTurn
+  split; · simp
+  split; · simp
+  split
+  · rename_i hh
+    cases s with
+    | nil => simp at hh
+    | cons c cs =>
+      simp only [List.head?_cons, Option.some.injEq] at hh
+      have hs : byteSliceFrom (c :: cs) C16.turnSliceFrom = some cs := by
+        rw [hh]; exact byteSlice_after_ascii _ _ (by decide)
+      rw [hs]; simp only
+      split <;> simp
+  · simp
+
+/-! ## accepted values are valid -/
+theorem lookup_mem {α β : Type} [BEq α] : ∀ (l : List (α × β)) (k : α) (v : β), l.lookup k = some v → ∃ k', (k', v) ∈ l
+  | [], _, _, h => by simp [List.lookup] at h
+  | (k', v') :: l, k, v, h => by
+    simp only [List.lookup] at h
+    split at h
+    · simp at h; subst h; exact ⟨k', by simp⟩
+    · obtain ⟨k'', hm⟩ := lookup_mem l k v h
+      exact ⟨k'', by simp [hm]⟩
+
+theorem rank_values : ∀ p ∈ C16.rankParse, p.2 < 13 := by decide
+theorem suit_values : ∀ p ∈ C16.suitParse, p.2 < 4 := by decide
+
+/-- an accepted card is one of the 52 -/
+theorem parseCard_lt (U : Unicode) (s : List Char) (c : Nat) (h : parseCard U s = .ok c) : c < 52 := by
+  unfold parseCard at h
+  split at h
+  · split at h
+    · simp at h
+    · rename_i r hr
+      split at h
+      · simp at h
+      · rename_i x hx
+        simp only [Outcome.ok.injEq] at h
+        obtain ⟨_, m1⟩ := lookup_mem _ _ _ hr
+        obtain ⟨_, m2⟩ := lookup_mem _ _ _ hx
+        have b1 := rank_values _ m1
+        have b2 := suit_values _ m2
+        simp only [cardOfRS, C15.cardMul] at h
+        simp only at b1 b2
+        omega
+  · simp at h
+
+theorem collectCards_lt (U : Unicode) : ∀ (l : List (List Char)) (cs : List Nat), collectCards U l = .ok cs → ∀ c ∈ cs, c < 52
+  | [], cs, h => by simp [collectCards] at h; subst h; simp
+  | ch :: rest, cs, h => by
+    unfold collectCards at h
+    cases h1 : parseCard U ch with
+    | panic => rw [h1] at h; simp at h
+    | err => rw [h1] at h; simp at h
+    | ok c =>
+      rw [h1] at h; simp only at h
+      cases h2 : collectCards U rest with
+      | panic => rw [h2] at h; simp at h
+      | err => rw [h2] at h; simp at h
+      | ok r =>
+        rw [h2] at h; simp only [Outcome.ok.injEq] at h; subst h
+        intro x hx
+        rcases List.mem_cons.mp hx with rfl | hx
+        · exact parseCard_lt U ch _ h1
+        · exact collectCards_lt U rest r h2 x hx
+
+theorem tokensCards_lt (U : Unicode) : ∀ (l : List (List Char)) (cs : List Nat), tokensCards U l = .ok cs → ∀ c ∈ cs, c < 52
+  | [], cs, h => by simp [tokensCards] at h; subst h; simp
+  | t :: ts, cs, h => by
+    unfold tokensCards at h
+    cases h1 : collectCards U (chunks2 t) with
+    | panic => rw [h1] at h; simp at h
+    | err => rw [h1] at h; simp only at h; exact tokensCards_lt U ts cs h
+    | ok a =>
+      rw [h1] at h; simp only at h
+      cases h2 : tokensCards U ts with
+      | panic => rw [h2] at h; simp at h
+      | err => rw [h2] at h; simp at h
+      | ok r =>
+        rw [h2] at h; simp only [Outcome.ok.injEq] at h; subst h
+        intro x hx
+        rcases List.mem_append.mp hx with hx | hx
+        · exact collectCards_lt U _ a h1 x hx
+        · exact tokensCards_lt U ts r h2 x hx
+
+theorem foldl_or_lt (cs : List Nat) (hc : ∀ c ∈ cs, c < 52) : ∀ acc, acc < 2^52 →
+    cs.foldl (fun a c => a ||| (1 <<< c)) acc < 2^52 := by
+  induction cs with
+  | nil => intro acc h; simpa using h
+  | cons c cs ih =>
+    intro acc h
+    simp only [List.foldl_cons]
+    apply ih (fun x hx => hc x (by simp [hx]))
+    apply Nat.or_lt_two_pow h
+    rw [Nat.one_shiftLeft]
+    exact Nat.pow_lt_pow_right (by omega) (hc c (by simp))
+
+/-- an accepted hand holds only cards of the 52-card deck -/
+theorem C16_hand_valid (U : Unicode) (s : List Char) (h : Nat) (e : parseHand U s = .ok h) : h < 2^52 := by
+  unfold parseHand at e
+  cases h1 : tokensCards U (splitWs U s) with
+  | panic => rw [h1] at e; simp at e
+  | err => rw [h1] at e; simp at e
+  | ok cs =>
+    rw [h1] at e; simp only [Outcome.ok.injEq] at e; subst e
+    exact foldl_or_lt cs (tokensCards_lt U _ cs h1) 0 (by omega)
+theorem C16_card_valid (U : Unicode) (s : List Char) (c : Nat) (h : parseCard U s = .ok c) : c < 52 := parseCard_lt U s c h
+theorem C16_hole_valid (U : Unicode) (s : List Char) (h : Nat) (e : parseHole U s = .ok h) : h < 2^52 ∧ handSize h = 2 := by
+  unfold parseHole at e
+  cases h1 : parseHand U s with
+  | panic => rw [h1] at e; simp at e
+  | err => rw [h1] at e; simp at e
+  | ok x =>
+    rw [h1] at e; simp only at e
+    split at e
+    · rename_i hs
+      simp only [Outcome.ok.injEq] at e; subst e
+      exact ⟨C16_hand_valid U s _ h1, hs⟩
+    · simp at e
+
+/-- **A returned observation is well-formed**: two pocket cards, 0 / 3 / 4 / 5 board cards, no card in
+both, every card one of the 52 — for every string and every Unicode table. -/
+theorem C16_obs_wellformed (U : Unicode) (s : List Char) (o : Obs) (h : parseObs U s = .ok o) :
+    handSize o.pocket = 2 ∧ (handSize o.board = 0 ∨ handSize o.board = 3 ∨ handSize o.board = 4 ∨ handSize o.board = 5) ∧
+    o.pocket &&& o.board = 0 ∧ o.pocket < 2^52 ∧ o.board < 2^52 := by
+  obtain ⟨op, ob⟩ := o
+  show handSize op = 2 ∧ (handSize ob = 0 ∨ handSize ob = 3 ∨ handSize ob = 4 ∨ handSize ob = 5) ∧
+    op &&& ob = 0 ∧ op < 2^52 ∧ ob < 2^52
+  unfold parseObs at h
+  simp only at h
+  cases e1 : parseHand U ((splitOnce C16.obsSeparator (trim U s)).getD (trim U s, [])).1 with
+  | panic => rw [e1] at h; simp at h
+  | err => rw [e1] at h; simp at h
+  | ok p =>
+    rw [e1] at h; simp only at h
+    cases e2 : parseHand U ((splitOnce C16.obsSeparator (trim U s)).getD (trim U s, [])).2 with
+    | panic => rw [e2] at h; simp at h
+    | err => rw [e2] at h; simp at h
+    | ok b =>
+      rw [e2] at h; simp only at h
+      split at h
+      · simp at h
+      · rename_i hov
+        split at h
+        · rename_i hsz
+          have hz := obsSizes_ok p b hsz
+          unfold obsMk at h
+          split at h
+          · rename_i o' heq
+            simp only [Outcome.ok.injEq] at h
+            subst h
+            split at heq
+            · simp only [Option.some.injEq, Obs.mk.injEq] at heq
+              obtain ⟨rfl, rfl⟩ := heq
+              have hp : p < 2^52 := C16_hand_valid U _ _ e1
+              have hb : b < 2^52 := C16_hand_valid U _ _ e2
+              have hd : p &&& b = 0 := by simpa using hov
+              exact ⟨hz.1, hz.2, hd, hp, hb⟩
+            · simp at heq
+          · simp at h
+        · simp at h
+
+/-! ## print → parse (Unicode tables constrained on ASCII only) -/
+theorem card_rt_ascii : ∀ c, c < 52 → parseCard asciiU (printCard c) = .ok c := by decide
+theorem card_print_ascii : ∀ c, c < 52 → AllAscii (printCard c) := by unfold AllAscii; decide
+/-- **all 52 cards** -/
+theorem C16_card_roundtrip (U : Unicode) (hU : U.AsciiOK) (c : Nat) (hc : c < 52) : parseCard U (printCard c) = .ok c := by
+  rw [parseCard_ascii hU (card_print_ascii c hc)]; exact card_rt_ascii c hc
+/-- accepted spellings beyond the printed one: any letter case, the four suit symbols, surrounding white space -/
+example : parseCard asciiU "as".toList = .ok 51 ∧ parseCard asciiU " AS\t".toList = .ok 51 ∧ parseCard rustU "A♠".toList = .ok 51 ∧
+    parseCard rustU "é".toList = .err ∧ parseCard rustU "Asé".toList = .err := by decide
+
+theorem street_rt_ascii : ∀ s, s < 4 → parseStreet asciiU (printStreet s) = .ok s := by decide
+theorem street_print_ascii : ∀ s, s < 4 → AllAscii (printStreet s) := by unfold AllAscii; decide
+/-- **all 4 streets** -/
+theorem C16_street_roundtrip (U : Unicode) (hU : U.AsciiOK) (s : Nat) (hs : s < 4) : parseStreet U (printStreet s) = .ok s := by
+  rw [parseStreet_ascii hU (street_print_ascii s hs)]; exact street_rt_ascii s hs
+/-- only the first character counts, after case mapping: `ﬀ` (U+FB00) upper-cases to `FF` and is read as the flop -/
+example : parseStreet rustU "ﬀ".toList = .ok 1 ∧ parseStreet rustU "Fxyz".toList = .ok 1 ∧ parseStreet rustU "".toList = .err := by decide
+
+/-- **every player turn** (`XX`, `??`, `P<n>` for every `usize`) -/
+theorem C16_turn_roundtrip (t : Turn) (ht : ∀ n, t = .choice n → n < 2^64) : parseTurn (printTurn t) = .ok t := by
+  cases t with
+  | terminal => decide
+  | chance => decide
+  | choice n =>
+    have hn := ht n rfl
+    have hp : printTurn (.choice n) = 'P' :: printNat 10 n := rfl
+    rw [hp]
+    unfold parseTurn
+    have h1 : ('P' :: printNat 10 n) ≠ C16.turnTerminal := by simp [C16.turnTerminal]
+    have h2 : ('P' :: printNat 10 n) ≠ C16.turnChance := by simp [C16.turnChance]
+    have h3 : ('P' :: printNat 10 n).head? = some C16.turnPrefix := rfl
+    have h4 : byteSliceFrom ('P' :: printNat 10 n) C16.turnSliceFrom = some (printNat 10 n) :=
+      byteSlice_after_ascii _ _ (by decide)
+    have h5 := parseInt_printNat 10 64 false (Or.inl rfl) n (by simp; omega)
+    simp only [h1, h2, h3, h4, h5, if_false, if_true]
+    simp
+example : printTurn (.choice 12) = "P12".toList ∧ parseTurn "P+12".toList = .ok (.choice 12) ∧ parseTurn "P-1".toList = .err ∧
+    parseTurn "Pé".toList = .err ∧ parseTurn "P18446744073709551616".toList = .err ∧ parseTurn " P1".toList = .err := by decide
+
+theorem printHand_ascii (h : Nat) (hh : h < 2^52) : AllAscii (printHand h) := fun c hc => (printHand_chars h hh c hc).2.1
+
+/-- **every hand** (any subset of the 52 cards, the empty hand included): printed as the concatenated
+cards, lowest first -/
+theorem C16_hand_roundtrip (U : Unicode) (hU : U.AsciiOK) (h : Nat) (hh : h < 2^52) : parseHand U (printHand h) = .ok h := by
+  rw [parseHand_ascii hU (printHand_ascii h hh)]; exact parseHand_print_ascii h hh
+/-- **every hole** (two cards) -/
+theorem C16_hole_roundtrip (U : Unicode) (hU : U.AsciiOK) (h : Nat) (hh : h < 2^52) (h2 : handSize h = 2) :
+    parseHole U (printHand h) = .ok h := by
+  unfold parseHole; rw [C16_hand_roundtrip U hU h hh]; simp [h2, C16.holeSize]
+example : printHand 0b100101 = "2c2h3d".toList ∧ parseHand asciiU "2c2h3d".toList = .ok 0b100101 ∧
+    parseHand asciiU "3d 2h  2c".toList = .ok 0b100101 := by decide
+/-- a token with a chunk that is not a card is dropped as a whole, the call still succeeds -/
+example : parseHand asciiU "AsKx 2c".toList = .ok 1 ∧ parseHand asciiU "xyz".toList = .ok 0 ∧ parseHole asciiU "AsAs".toList = .err := by decide
+
+/-- the values of `Observation` that the game produces: two pocket cards, 0 / 3 / 4 / 5 board cards, disjoint -/
+structure ObsValid (o : Obs) : Prop where
+  pocket_lt : o.pocket < 2^52
+  board_lt : o.board < 2^52
+  pocket_size : handSize o.pocket = 2
+  board_size : handSize o.board = 0 ∨ handSize o.board = 3 ∨ handSize o.board = 4 ∨ handSize o.board = 5
+  disjoint : o.pocket &&& o.board = 0
+
+theorem printObs_ascii (o : Obs) (h : ObsValid o) : AllAscii (printObs o) := by
+  intro c hc
+  simp only [printObs, C16.obsSeparator, List.mem_append, List.mem_cons, List.mem_nil_iff, or_false] at hc
+  rcases hc with hc | rfl | rfl | rfl | hc
+  · exact printHand_ascii _ h.pocket_lt c hc
+  · decide
+  · decide
+  · decide
+  · exact printHand_ascii _ h.board_lt c hc
+
+theorem parseObs_print_ascii (o : Obs) (h : ObsValid o) : parseObs asciiU (printObs o) = .ok o := by
+  obtain ⟨op, ob⟩ := o
+  have hpl : op < 2^52 := h.pocket_lt
+  have hbl : ob < 2^52 := h.board_lt
+  have hps : handSize op = 2 := h.pocket_size
+  have hbs : handSize ob = 0 ∨ handSize ob = 3 ∨ handSize ob = 4 ∨ handSize ob = 5 := h.board_size
+  have hdj : op &&& ob = 0 := h.disjoint
+  -- the pocket string is non-empty and starts / ends with a non-blank
+  have hPne : handCards op ≠ [] := by
+    intro e; have := length_handCards op; rw [e, hps] at this; simp at this
+  have hP : printHand op ≠ [] := fun e => hPne ((printHand_nil_iff op hpl).mp e)
+  have hPc := printHand_chars op hpl
+  have hBc := printHand_chars ob hbl
+  -- the trimmed string is  P ++ " ~" ++ rest  with rest = [] or ' ' :: B
+  have key : ∃ rest, trim asciiU (printObs ⟨op, ob⟩) = (printHand op ++ [' ']) ++ '~' :: rest ∧
+      parseHand asciiU rest = .ok ob := by
+    cases hp : printHand op with
+    | nil => exact absurd hp hP
+    | cons a as =>
+      have ha : asciiWs a = false := (hPc a (by rw [hp]; simp)).1
+      by_cases hB : printHand ob = []
+      · refine ⟨[], ?_, ?_⟩
+        · have e : printObs ⟨op, ob⟩ = ((a :: as) ++ [' ', '~']) ++ [' '] := by
+            simp [printObs, C16.obsSeparator, hp, hB]
+          rw [e]
+          have := trim_core ((a :: as) ++ [' ', '~']) [' '] a (as ++ [' ', '~']) (by simp) ha '~' (' ' :: (a :: as).reverse)
+            (by simp) (by decide) (by intro c hc; simp at hc; subst hc; decide)
+          rw [this]; simp
+        · have := parseHand_pad ob hbl [] [] (by intro c hc; simp at hc) (by intro c hc; simp at hc)
+          simpa [hB] using this
+      · refine ⟨' ' :: printHand ob, ?_, ?_⟩
+        · have e : printObs ⟨op, ob⟩ = ((a :: as) ++ ' ' :: '~' :: ' ' :: printHand ob) ++ [] := by
+            simp [printObs, C16.obsSeparator, hp]
+          rw [e]
+          cases hr : (printHand ob).reverse with
+          | nil => simp at hr; exact absurd hr hB
+          | cons z zs =>
+            have hzm : z ∈ printHand ob := by
+              have : z ∈ (printHand ob).reverse := by rw [hr]; simp
+              simpa using this
+            have hz : asciiWs z = false := (hBc z hzm).1
+            have := trim_core ((a :: as) ++ ' ' :: '~' :: ' ' :: printHand ob) [] a (as ++ ' ' :: '~' :: ' ' :: printHand ob)
+              (by simp) ha z (zs ++ ' ' :: '~' :: ' ' :: (a :: as).reverse) (by simp [hr]) hz (by intro c hc; simp at hc)
+            rw [this]; simp
+        · have := parseHand_pad ob hbl [' '] [] (by intro c hc; simp at hc; subst hc; decide) (by intro c hc; simp at hc)
+          simpa using this
+  obtain ⟨rest, ht, hrest⟩ := key
+  unfold parseObs
+  rw [ht]
+  have hsep : C16.obsSeparator = ['~'] := rfl
+  simp only []
+  rw [hsep, splitOnce_tilde (printHand op ++ [' ']) rest (by
+    intro c hc; simp only [List.mem_append, List.mem_singleton] at hc
+    rcases hc with hc | rfl
+    · exact (hPc c hc).2.2
+    · decide)]
+  simp only [Option.getD_some]
+  have hpk := parseHand_pad op hpl [] [' '] (by intro c hc; simp at hc) (by intro c hc; simp at hc; subst hc; decide)
+  rw [List.nil_append] at hpk
+  rw [hpk, hrest]
+  simp only [hdj, ne_eq, not_true_eq_false, if_false]
+  have hsz : (handSize op, handSize ob) ∈ C16.obsSizes := by
+    rw [hps]; rcases hbs with e | e | e | e <;> rw [e] <;> decide
+  have hm : obsMk op ob = some ⟨op, ob⟩ := by
+    unfold obsMk
+    have : handSize op = C15.obsPocketSize ∧ handSize ob ≤ C15.obsPublicMax := by
+      simp only [C15.obsPocketSize, C15.obsPublicMax]; omega
+    rw [if_pos this]
+  simp only [hsz, if_true, hm]
+
+/-- **every observation** — two pocket cards, a flop / turn / river board or none, disjoint: the printed
+form `"<pocket> ~ <board>"` parses back (for pre-flop the trailing blank is trimmed). -/
+theorem C16_obs_roundtrip (U : Unicode) (hU : U.AsciiOK) (o : Obs) (h : ObsValid o) : parseObs U (printObs o) = .ok o := by
+  rw [parseObs_ascii hU (printObs_ascii o h)]; exact parseObs_print_ascii o h
+example : printObs ⟨0b11, 0b11100⟩ = "2c2d ~ 2h2s3c".toList ∧ parseObs asciiU "2c2d ~ 2h2s3c".toList = .ok ⟨0b11, 0b11100⟩ ∧
+    printObs ⟨0b11, 0⟩ = "2c2d ~ ".toList ∧ parseObs asciiU "2c2d ~ ".toList = .ok ⟨0b11, 0⟩ := by decide
+/-- overlapping pocket and board, wrong counts: rejected (the third `fix:`) -/
+example : parseObs asciiU "AsKs ~ AsKd2c".toList = .err ∧ parseObs asciiU "AsKs ~ 2c3c".toList = .err ∧
+    parseObs asciiU "As ~ 2c3c4c".toList = .err ∧ parseObs asciiU "".toList = .err := by decide
+
+/-- the values of `Action`: every `i16` amount, every set of dealt cards -/
+def ActionValid : Action → Prop
+  | .draw h => h < 2^52
+  | .call x => -32768 ≤ x ∧ x ≤ 32767
+  | .raise x => -32768 ≤ x ∧ x ≤ 32767
+  | .shove x => -32768 ≤ x ∧ x ≤ 32767
+  | .blind x => -32768 ≤ x ∧ x ≤ 32767
+  | .fold => True
+  | .check => True
+
+theorem kw_ne : ∀ i, i < 7 → ∀ j, j < 7 → i ≠ j → keyword i ≠ keyword j := by decide
+
+theorem parseAction_print_ascii (a : Action) (h : ActionValid a) : parseAction asciiU (printAction a) = .ok a := by
+  cases a with
+  | fold => decide
+  | check => decide
+  | call x =>
+    obtain ⟨hine, hic⟩ := printInt_chars x
+    have hsp := splitWs_two ['C', 'A', 'L', 'L'] ' ' [' '] (printInt x) (by unfold NoWs; decide) (by decide) (by decide) (by unfold AllWs; decide) (fun c hc => (hic c hc).1)
+    have he : (printInt x).isEmpty = false := by
+      cases hq : printInt x with
+      | nil => exact absurd hq hine
+      | cons a b => rfl
+    rw [he] at hsp
+    have hp : printAction (.call x) = ['C', 'A', 'L', 'L'] ++ ' ' :: ([' '] ++ printInt x) := rfl
+    rw [hp]; unfold parseAction; rw [hsp]
+    have hk : asciiU.upper ['C', 'A', 'L', 'L'] = keyword 2 := by decide
+    have n0 : keyword 2 ≠ keyword 0 := kw_ne 2 (by omega) 0 (by omega) (by omega)
+    have n1 : keyword 2 ≠ keyword 1 := kw_ne 2 (by omega) 1 (by omega) (by omega)
+    simp [hk, n0, n1, parseInt_printInt x h]
+  | raise x =>
+    obtain ⟨hine, hic⟩ := printInt_chars x
+    have hsp := splitWs_two ['R', 'A', 'I', 'S', 'E'] ' ' [] (printInt x) (by unfold NoWs; decide) (by decide) (by decide) (by unfold AllWs; decide) (fun c hc => (hic c hc).1)
+    have he : (printInt x).isEmpty = false := by
+      cases hq : printInt x with
+      | nil => exact absurd hq hine
+      | cons a b => rfl
+    rw [he] at hsp
+    have hp : printAction (.raise x) = ['R', 'A', 'I', 'S', 'E'] ++ ' ' :: ([] ++ printInt x) := rfl
+    rw [hp]; unfold parseAction; rw [hsp]
+    have hk : asciiU.upper ['R', 'A', 'I', 'S', 'E'] = keyword 3 := by decide
+    have n0 : keyword 3 ≠ keyword 0 := kw_ne 3 (by omega) 0 (by omega) (by omega)
+    have n1 : keyword 3 ≠ keyword 1 := kw_ne 3 (by omega) 1 (by omega) (by omega)
+    have n2 : keyword 3 ≠ keyword 2 := kw_ne 3 (by omega) 2 (by omega) (by omega)
+    simp [hk, n0, n1, n2, parseInt_printInt x h]
+  | shove x =>
+    obtain ⟨hine, hic⟩ := printInt_chars x
+    have hsp := splitWs_two ['S', 'H', 'O', 'V', 'E'] ' ' [] (printInt x) (by unfold NoWs; decide) (by decide) (by decide) (by unfold AllWs; decide) (fun c hc => (hic c hc).1)
+    have he : (printInt x).isEmpty = false := by
+      cases hq : printInt x with
+      | nil => exact absurd hq hine
+      | cons a b => rfl
+    rw [he] at hsp
+    have hp : printAction (.shove x) = ['S', 'H', 'O', 'V', 'E'] ++ ' ' :: ([] ++ printInt x) := rfl
+    rw [hp]; unfold parseAction; rw [hsp]
+    have hk : asciiU.upper ['S', 'H', 'O', 'V', 'E'] = keyword 4 := by decide
+    have n0 : keyword 4 ≠ keyword 0 := kw_ne 4 (by omega) 0 (by omega) (by omega)
+    have n1 : keyword 4 ≠ keyword 1 := kw_ne 4 (by omega) 1 (by omega) (by omega)
+    have n2 : keyword 4 ≠ keyword 2 := kw_ne 4 (by omega) 2 (by omega) (by omega)
+    have n3 : keyword 4 ≠ keyword 3 := kw_ne 4 (by omega) 3 (by omega) (by omega)
+    simp [hk, n0, n1, n2, n3, parseInt_printInt x h]
+  | blind x =>
+    obtain ⟨hine, hic⟩ := printInt_chars x
+    have hsp := splitWs_two ['B', 'L', 'I', 'N', 'D'] ' ' [] (printInt x) (by unfold NoWs; decide) (by decide) (by decide) (by unfold AllWs; decide) (fun c hc => (hic c hc).1)
+    have he : (printInt x).isEmpty = false := by
+      cases hq : printInt x with
+      | nil => exact absurd hq hine
+      | cons a b => rfl
+    rw [he] at hsp
+    have hp : printAction (.blind x) = ['B', 'L', 'I', 'N', 'D'] ++ ' ' :: ([] ++ printInt x) := rfl
+    rw [hp]; unfold parseAction; rw [hsp]
+    have hk : asciiU.upper ['B', 'L', 'I', 'N', 'D'] = keyword 5 := by decide
+    have n0 : keyword 5 ≠ keyword 0 := kw_ne 5 (by omega) 0 (by omega) (by omega)
+    have n1 : keyword 5 ≠ keyword 1 := kw_ne 5 (by omega) 1 (by omega) (by omega)
+    have n2 : keyword 5 ≠ keyword 2 := kw_ne 5 (by omega) 2 (by omega) (by omega)
+    have n3 : keyword 5 ≠ keyword 3 := kw_ne 5 (by omega) 3 (by omega) (by omega)
+    have n4 : keyword 5 ≠ keyword 4 := kw_ne 5 (by omega) 4 (by omega) (by omega)
+    simp [hk, n0, n1, n2, n3, n4, parseInt_printInt x h]
+  | draw hd =>
+    have hh : hd < 2^52 := h
+    have hsp := splitWs_two ['D', 'E', 'A', 'L'] ' ' [' '] (printHand hd) (by unfold NoWs; decide) (by decide) (by decide) (by unfold AllWs; decide)
+      (fun c hc => (printHand_chars hd hh c hc).1)
+    have hp : printAction (.draw hd) = ['D', 'E', 'A', 'L'] ++ ' ' :: ([' '] ++ printHand hd) := rfl
+    rw [hp]
+    unfold parseAction
+    rw [hsp]
+    have hkw : asciiU.upper ['D', 'E', 'A', 'L'] = keyword 6 := by decide
+    have h1 : keyword 6 ≠ keyword 1 := by decide
+    have h0 : keyword 6 ≠ keyword 0 := by decide
+    have h2 : keyword 6 ≠ keyword 2 := by decide
+    have h3 : keyword 6 ≠ keyword 3 := by decide
+    have h4 : keyword 6 ≠ keyword 4 := by decide
+    have h5 : keyword 6 ≠ keyword 5 := by decide
+    simp only [hkw, h0, h1, h2, h3, h4, h5, if_false, if_true]
+    have hv : ∀ r : List (List Char), vecSliceFrom (['D', 'E', 'A', 'L'] :: r) 1 = some r := by intro r; simp [vecSliceFrom]
+    rw [hv]
+    simp only
+    have hj : joinSp (if (printHand hd).isEmpty then [] else [printHand hd]) = printHand hd := by
+      cases hq : printHand hd with
+      | nil => rfl
+      | cons a b => rfl
+    rw [hj, parseHand_print_ascii hd hh]
+
+theorem printAction_ascii (a : Action) (h : ActionValid a) : AllAscii (printAction a) := by
+  have pre : ∀ k, k < 7 → AllAscii (prefixOf k) := by unfold AllAscii; decide
+  cases a with
+  | fold => exact pre 0 (by omega)
+  | check => exact pre 1 (by omega)
+  | call x => intro c hc; rcases List.mem_append.mp hc with hc | hc; exact pre 2 (by omega) c hc; exact ((printInt_chars x).2 c hc).2
+  | raise x => intro c hc; rcases List.mem_append.mp hc with hc | hc; exact pre 3 (by omega) c hc; exact ((printInt_chars x).2 c hc).2
+  | shove x => intro c hc; rcases List.mem_append.mp hc with hc | hc; exact pre 4 (by omega) c hc; exact ((printInt_chars x).2 c hc).2
+  | blind x => intro c hc; rcases List.mem_append.mp hc with hc | hc; exact pre 5 (by omega) c hc; exact ((printInt_chars x).2 c hc).2
+  | draw hd => intro c hc; rcases List.mem_append.mp hc with hc | hc; exact pre 6 (by omega) c hc; exact printHand_ascii hd h c hc
+
+/-- **every action**: fold, check, call / raise / shove / blind with every `i16` amount (negative ones
+included), a deal of any set of cards (the empty one included) -/
+theorem C16_action_roundtrip (U : Unicode) (hU : U.AsciiOK) (a : Action) (h : ActionValid a) :
+    parseAction U (printAction a) = .ok a := by
+  rw [parseAction_ascii hU (printAction_ascii a h)]; exact parseAction_print_ascii a h
+example : printAction (.call (-5)) = "CALL  -5".toList ∧ parseAction asciiU "CALL  -5".toList = .ok (.call (-5)) ∧
+    printAction (.draw 0b10011) = "DEAL  2c2d3c".toList ∧ parseAction asciiU "deal 3c 2d2c".toList = .ok (.draw 0b10011) := by decide
+/-- the second `fix:` — an empty or blank string is an error, not an abort; and what else is accepted / rejected -/
+example : parseAction asciiU [] = .err ∧ parseAction asciiU "   ".toList = .err ∧ parseAction asciiU ['C', 'A', 'L', 'L'] = .err ∧
+    parseAction asciiU "CALL 32768".toList = .err ∧ parseAction asciiU "CALL +7 junk".toList = .ok (.call 7) ∧
+    parseAction rustU "ſhove 5".toList = .ok (.shove 5) := by decide
+
+/-- the street letter of the printed bucket -/
+def streetLetter (s : Nat) : Char := ((printStreet s).map asciiUpper).headD '?'
+theorem streetLetter_facts : ∀ s, s < 4 → (printStreet s).head?.map (fun c => [asciiUpper c]) = some [streetLetter s] ∧
+    (∀ c, (printStreet s).head? = some c → isAscii c = true) ∧
+    streetLetter s ≠ ':' ∧ asciiWs (streetLetter s) = false ∧ isAscii (streetLetter s) = true ∧
+    parseStreet asciiU [streetLetter s] = .ok s := by decide
+
+/-- the printed form of the bucket `(street, index)`: street letter, `::`, index in hex (≥ 2 digits) -/
+def absText (s i : Nat) : List Char := streetLetter s :: ':' :: ':' :: hexPad C16.absHexWidth i
+
+theorem printAbs_eq (U : Unicode) (hU : U.AsciiOK) (s i : Nat) (hs : s < 4) (hi : i < 4096) :
+    printAbs U (absOf s i) = some (absText s i) := by
+  obtain ⟨h1, h2⟩ := RP.C15.abs_street_index s i hs
+  obtain ⟨f1, f2, _⟩ := streetLetter_facts s hs
+  unfold printAbs
+  rw [h1, h2]
+  simp only
+  cases hh : (printStreet s).head? with
+  | none => rw [hh] at f1; simp at f1
+  | some c =>
+    rw [hh] at f1
+    simp only [Option.map_some, Option.some.injEq] at f1
+    simp only
+    rw [hU.upper [c] (by intro x hx; simp at hx; rw [hx]; exact f2 c hh)]
+    simp only [List.map_cons, List.map_nil, f1]
+    rw [Nat.mod_eq_of_lt hi]
+    rfl
+
+theorem parseAbs_text_ascii (s i : Nat) (hs : s < 4) (hi : i < 4096) : parseAbs asciiU (absText s i) = .ok (absOf s i) := by
+  obtain ⟨_, _, f3, f4, f5, f6⟩ := streetLetter_facts s hs
+  obtain ⟨p1, p2, p3⟩ := parseInt_hexPad C16.absHexWidth i (by omega)
+  -- trimming changes nothing
+  have htrim : trim asciiU (absText s i) = absText s i := by
+    cases hr : (hexPad C16.absHexWidth i).reverse with
+    | nil => simp at hr; exact absurd hr p2
+    | cons z zs =>
+      have hzm : z ∈ hexPad C16.absHexWidth i := by
+        have : z ∈ (hexPad C16.absHexWidth i).reverse := by rw [hr]; simp
+        simpa using this
+      have := trim_core (absText s i) [] (streetLetter s) (':' :: ':' :: hexPad C16.absHexWidth i) rfl f4 z
+        (zs ++ [':', ':', streetLetter s]) (by simp [absText, hr]) (p3 z hzm).2.1 (by intro c hc; simp at hc)
+      simpa using this
+  have hsplit : splitOn C16.absDelim (absText s i) = [[streetLetter s], hexPad C16.absHexWidth i] := by
+    have hd : C16.absDelim = [':', ':'] := rfl
+    have hne : ¬ ':' = streetLetter s := fun e => f3 e.symm
+    unfold splitOn absText
+    rw [hd]
+    simp only [splitOnAux, List.isPrefixOf]
+    simp [hne, splitOnAux, splitOnAux_nocolon _ [] (fun c hc => (p3 c hc).1)]
+  unfold parseAbs
+  rw [htrim, hsplit]
+  have hr : C16.absRadix = 16 := rfl
+  simp only [List.getElem?_cons_zero, List.getElem?_cons_succ, f6, hr, p1]
+  simp
+
+theorem absText_ascii (s i : Nat) (hs : s < 4) (hi : i < 4096) : AllAscii (absText s i) := by
+  obtain ⟨_, _, _, _, f5, _⟩ := streetLetter_facts s hs
+  obtain ⟨_, _, p3⟩ := parseInt_hexPad C16.absHexWidth i (by omega)
+  intro c hc
+  simp only [absText, List.mem_cons] at hc
+  rcases hc with rfl | rfl | rfl | hc
+  · exact f5
+  · decide
+  · decide
+  · exact (p3 c hc).2.2
+
+/-- **every bucket** built by `Abstraction::from((street, index))` (all four streets, every 12-bit
+index — in particular the 542 buckets in use): it prints as `<S>::<hex>` and that parses back. -/
+theorem C16_abs_roundtrip (U : Unicode) (hU : U.AsciiOK) (s i : Nat) (hs : s < 4) (hi : i < 4096) :
+    ∃ str, printAbs U (absOf s i) = some str ∧ parseAbs U str = .ok (absOf s i) :=
+  ⟨absText s i, printAbs_eq U hU s i hs hi, by
+    rw [parseAbs_ascii hU (absText_ascii s i hs hi)]; exact parseAbs_text_ascii s i hs hi⟩
+example : absText 1 26 = "F::1a".toList ∧ parseAbs asciiU "F::1a".toList = .ok (absOf 1 26) ∧ parseAbs asciiU " f::1A ".toList = .ok (absOf 1 26) := by decide
+/-- what else is accepted: the index is cut to 12 bits, only the first letter of the street counts;
+an abstraction word with another hash field prints the same text and so does not come back -/
+example : parseAbs asciiU "F::1000".toList = .ok (absOf 1 0) ∧ parseAbs asciiU "flop::+1a::junk".toList = .ok (absOf 1 26) ∧
+    parseAbs asciiU "F:1a".toList = .err ∧ parseAbs asciiU "F::-1".toList = .err ∧
+    printAbs asciiU ⟨1, (1 <<< 56) ||| 26⟩ = some "F::1a".toList := by decide
+
+/-! ## the assumption on the Unicode tables is satisfiable — by the ASCII tables and by the driver's Rust tables -/
+theorem asciiU_ok : asciiU.AsciiOK := ⟨fun _ _ => rfl, fun _ _ => rfl, fun _ _ => rfl⟩
+
+theorem rustWs_ascii : ∀ n, n < 128 → rustWs.contains n = decide (n = 32 ∨ (9 ≤ n ∧ n ≤ 13)) := by decide
+theorem flatMap_mapChar (special : List (Nat × List Nat)) (f : Char → Char) :
+    ∀ s : List Char, (∀ c ∈ s, isAscii c = true) → s.flatMap (mapChar special f) = s.map f
+  | [], _ => rfl
+  | c :: cs, h => by
+    have hc : c.toNat < 128 := by simpa [isAscii] using h c (by simp)
+    simp only [List.flatMap_cons, List.map_cons, mapChar, hc, if_true]
+    rw [flatMap_mapChar special f cs (fun x hx => h x (by simp [hx]))]
+    rfl
+/-- the instantiation used by the driver (Rust's 25 white-space code points and the case mappings that
+reach ASCII) satisfies the assumption of the round-trip theorems -/
+theorem rustU_ok : rustU.AsciiOK := by
+  refine ⟨?_, ?_, ?_⟩
+  · intro c hc
+    have hlt : c.toNat < 128 := by simpa [isAscii] using hc
+    show rustWs.contains c.toNat = asciiWs c
+    rw [rustWs_ascii _ hlt]; rfl
+  · intro s hs; exact flatMap_mapChar _ _ s hs
+  · intro s hs; exact flatMap_mapChar _ _ s hs
+
+end RP.C16
